@@ -8,7 +8,7 @@ A fault at write index k: the first k writes of the block happen, the next one d
 of it (`crash`) or it returns an error (`error`; cli/operator/node.go ends the process on every error of the event
 stream). A new process starts on what survived and asks for the stream from marker + 1.
 -/
-import Ssv.Proofs.RegistryFault
+import Ssv.Proofs.RegistryFaultSeq
 
 namespace Ssv.Registry
 
@@ -109,7 +109,7 @@ def fourOps : Block := ⟨1, [.operatorAdded 1 1 1, .operatorAdded 2 1 2, .opera
 def ownAdd : Block :=
   ⟨2, [.validatorAdded 1 7 (some 0) 1312 [⟨1, 11, true, true⟩, ⟨2, 12, false, false⟩, ⟨3, 13, false, false⟩, ⟨4, 14, false, false⟩]]⟩
 
-theorem fourOps_state : Boundary (run 1 init [fourOps]).1 ∧ Sane (run 1 init [fourOps]).1.wal :=
+theorem C12_witness_start_state : Boundary (run 1 init [fourOps]).1 ∧ Sane (run 1 init [fourOps]).1.wal :=
   ⟨run_boundary 1 init _ init_boundary (by decide), run_sane 1 init _ sane_init⟩
 
 /-- REFUTED on this tree (replayed on the real handler + key manager: corpus/C12/registry_orphan_account.ops):
@@ -119,7 +119,7 @@ theorem fourOps_state : Boundary (run 1 init [fourOps]).1 ∧ Sane (run 1 init [
     stored twice, and a later RemoveShare removes only one of the two. -/
 theorem C12_crash_resume_eq_full_refuted : ¬ C12_crash_resume_eq_full := by
   intro h
-  have := (h 1 (run 1 init [fourOps]).1 ownAdd [] .crash 2 (by decide) fourOps_state.1 fourOps_state.2
+  have := (h 1 (run 1 init [fourOps]).1 ownAdd [] .crash 2 (by decide) C12_witness_start_state.1 C12_witness_start_state.2
     (by decide) (by decide) (by decide) (by decide) (by decide)).2.2.2 11
   revert this
   decide
@@ -193,5 +193,33 @@ example :
     keysOf (faultBlock 1 n lifeCycle .crash 4).1.wal = [11] ∧ keysOf (faultBlock 1 n lifeCycle .crash 7).1.wal = [] := by
   refine ⟨by decide, ⟨by decide, by decide⟩, by decide, by decide, by decide, by decide, by decide, by decide, by decide,
     by decide, by decide⟩
+
+
+/-! ## sequences of faults -/
+
+/-- ANY sequence of crashes / failing writes — each at any write index of any block that is still to be processed
+    (also the same block again), each followed by a restart on the surviving database and resumption from
+    marker + 1 — over a stream that starts on an empty database and is processed completely without faults
+    (OperatorAdded ids fresh and non-zero): unless one of the faults falls between the account record and the wallet
+    index of an AddShare, the stream ends exactly like the uninterrupted run. -/
+theorem C12_fault_sequence_partial (me : Nat) (bs : List Block) (fs : List Fault)
+    (hkinds : ∀ f ∈ fs, f.kind ≠ .retry) (hwf : OpAddsWF (flatten bs)) (hok : (run me init bs).2 = true)
+    (hgood : (faultyRun me init bs fs).2 = false) :
+    (faultyRun me init bs fs).1.2 = (run me init bs).2 ∧
+    (faultyRun me init bs fs).1.1.reg = (run me init bs).1.reg ∧
+    (faultyRun me init bs fs).1.1.hist = (run me init bs).1.hist ∧
+    ∀ key, (keysOf (faultyRun me init bs fs).1.1.wal).count key = (keysOf (run me init bs).1.wal).count key := by
+  have h := fault_sequence me fs init bs hkinds init_boundary sane_init (init_selfInv me) hwf hok hgood
+  exact ⟨h.ok, h.reg, h.hist, h.count⟩
+
+/-- non-vacuity: three faults — inside RemoveShare of the life-cycle block, then at its commit, then in a later
+    block — none on the excluded position; the faulty run really restarts and re-executes -/
+example :
+    let bs := [fourOps, ownAdd, lifeCycle, ⟨9, [.feeRecipientUpdated 2 3]⟩]
+    let fs : List Fault := [⟨2, .crash, 5⟩, ⟨0, .error, 12⟩, ⟨1, .crash, 1⟩]
+    OpAddsWF (flatten bs) ∧ (run 1 init bs).2 = true ∧ (faultyRun 1 init bs fs).2 = false ∧
+    (faultyRun 1 init bs fs).1.1.reg = (run 1 init bs).1.reg ∧
+    (faultyRun 1 init bs [⟨1, .crash, 2⟩]).2 = true := by
+  refine ⟨⟨by decide, by decide⟩, by decide, by decide, by decide, by decide⟩
 
 end Ssv.Registry
